@@ -104,7 +104,16 @@ def run(ctx, module, cfg, workers=8, timeout=600, simulate=None, depth=None, see
     try:
         p = run_group(cmd, timeout, cwd=d)
     except subprocess.TimeoutExpired:
-        raise MachineryError("TLC timeout after %ss: %s %s" % (timeout, module, cfg))
+        # a JVM that never got going has been seen once in several hundred runs (a probe that takes seconds sat
+        # for its whole timeout): one more attempt with a fresh metadir before giving up
+        log("TLC timeout after %ss: %s %s - retrying once" % (timeout, module, cfg))
+        try:
+            if "-metadir" in cmd:
+                i = cmd.index("-metadir")
+                cmd[i + 1] = cmd[i + 1] + "-retry"
+            p = run_group(cmd, timeout, cwd=d)
+        except subprocess.TimeoutExpired:
+            raise MachineryError("TLC timeout after %ss (twice): %s %s" % (timeout, module, cfg))
     res.wall = round(time.time() - t0, 2)
     lines = p.stdout.splitlines()
     other = []
